@@ -173,7 +173,7 @@ fn step(s: &dyn ShapeDyn, d: &Desc, img: &[u8], pop: &PathOp) -> StepResult {
         }
         if !was_refused && !must_ok && matches!(pred.expect, Expect::Refused) {
             // the call reported success where the model says it must be refused
-            res.viol.push((if matches!(pop.op, Op::Assign(..)) { "C18" } else { "C13" }, format!("accepted_unfit/{}", name), format!("succeeded although the model refuses it ({})", pred.refusal_cause.unwrap_or("-"))));
+            res.viol.push((own, format!("accepted_unfit/{}", name), format!("succeeded although the model refuses it ({})", pred.refusal_cause.unwrap_or("-"))));
         }
         if was_refused {
             res.refused = pred.refusal_cause.or(Some("refused"));
@@ -424,6 +424,11 @@ impl Engine for Hist {
         if id == "vec(u8,u8)" && (want.contains(&"C11") || want.contains(&"C13")) {
             configs.push((1 + 300, true)); // capacity above the length type's maximum
         }
+        // a last item whose sealing offset is at / next to the maximum of the offset type
+        let seal_boundary = id == "flex(vec(u8,u8),u8)";
+        if seal_boundary {
+            configs.push((300, false));
+        }
         for (n, clamp) in configs {
             // initial states: default_in_place on two fills, plus the smallest and largest fitting value
             let mut inits: Vec<Vec<u8>> = vec![];
@@ -457,6 +462,18 @@ impl Engine for Hist {
                     // the other documented chain form as a starting point
                     if let Ok(img) = refmodel::encode_opt(&d, v, n, 0xEE, true) {
                         if decode(&d, &img.bytes).is_ok() {
+                            inits.push(img.bytes);
+                        }
+                    }
+                }
+            }
+            if seal_boundary && n == 300 {
+                // items of 251..253 bytes: the offset that seals them is 253..255 = L::MAX-2 .. L::MAX
+                inits.clear();
+                for k in [251usize, 252, 253] {
+                    let big = Value::Vec((0..k).map(|i| Value::Scalar((i % 2 + 1) as u128)).collect());
+                    for v in [Value::Flex(vec![big.clone()]), Value::Flex(vec![Value::Vec(vec![Value::Scalar(7)]), big.clone()])] {
+                        if let Ok(img) = encode(&d, &v, n, 0) {
                             inits.push(img.bytes);
                         }
                     }
